@@ -57,7 +57,7 @@ PROPS = {
         'not_decided': ['non-increasing in speed beyond the assumed monotonicity of IEEE division'],
     },
     'C11': {
-        'technique': 'Verus contract on the extracted text of Engine::generator (per-stream wiring) + Kani harnesses on Mask::create / MlpgAdjust::create / Models::stream',
+        'technique': 'Verus contract on the extracted text of Engine::generator (per-stream wiring) + Kani harnesses on Mask::create / MlpgAdjust::create / Models::stream; Kani: the argument lists of the three MlpgAdjust::new calls of Engine::generator cut from its text (K-genargs, full symbolic condition values)',
         'level_text': 'unbounded proof that stream i receives exactly msd_threshold[i], gv_weight[i], model_stream(i); voiced <=> msd > threshold and NODATA placement bounded by Kani',
         'level_note': 'callees abstracted by uninterpreted functions of their arguments (determinism of safe Rust without interior mutability assumed)',
         'verus': ['engine', 'vocoder'],
@@ -117,7 +117,7 @@ PROPS = {
         'not_decided': ['magnitude response K / |A|^s within 0.001 neper', 'decaying finite response for well-separated frequencies (check_lsp_stability, MGLSA filter)', 'numerical accuracy of gc2gc / gnorm / ignorm / mgc2mgc (their recursions are pinned, not their rounding)'],
     },
     'C15': {
-        'technique': 'Verus contracts on the extracted text of StreamParameter::apply_additional_half_tone and Engine::generator; Kani harnesses pin the float values',
+        'technique': 'Verus contracts on the extracted text of StreamParameter::apply_additional_half_tone and Engine::generator; Kani harnesses pin the float values; Kani: the argument lists of the three MlpgAdjust::new calls of Engine::generator cut from its text (K-genargs: the shift reaches the stream-1 model before MLPG and no other stream); documented constant values (K-const)',
         'level_text': 'unbounded proof (any number of states and windows) that only the static log-F0 mean of each state changes, to clamp(mean + h*HALF_TONE, MIN_LF0, MAX_LF0), that h = 0 is the identity, and that the shift is applied to stream 1 only, before MLPG, reaching neither durations nor the other streams; Kani: the same on 2 states x 2 windows bit-precisely',
         'level_note': 'mean-level claim; the trajectory-level shift after MLPG (exact arithmetic only) is not decided; in Verus IEEE ops and f64::clamp are uninterpreted (values pinned by Kani on 1-2 states with h from 6 constants)',
         'verus': ['engine', 'halftone'],
@@ -167,7 +167,7 @@ PROPS = {
         'not_decided': ['impulse-response energy preserved within 1% (truncation to 576 taps, rounding)'],
     },
     'C16': {
-        'technique': 'Kani frame harness on Condition::set_volume (exp stubbed as an uninterpreted function) + Verus contract on Engine::generator',
+        'technique': 'Kani frame harness on Condition::set_volume (exp stubbed as an uninterpreted function) + Verus contract on Engine::generator; documented constant values (K-const: DB = ln10/20 within 2 ulp)',
         'level_text': 'complete frame proof: set_volume writes the volume field only; unbounded proof that condition.volume reaches Vocoder::new\'s volume argument and nothing else in the pipeline',
         'level_note': 'PARTIAL: the dB round trip ln(exp(x)) ~ x is NOT decided (libm); Verus states volume == exp(v*DB), get_volume == ln(volume)/DB, and (unit vocoder) that every sample written by Vocoder::synthesize is some filter output times the stored volume, with exp/ln/IEEE ops uninterpreted',
         'verus': ['engine', 'cond', 'vocoder'],
